@@ -10,8 +10,8 @@ for i in range(1, 21):
     ev = json.load(open(os.path.join(HERE, "..", "evidence", p + ".json")))
     assert ev["tier"] == "quick" and ev["violations"] == 0, p
     c = ev["coverage"]
-    hist = {k: int(v * 0.5) for k, v in (c.get("input_histogram") or {}).items()
-            if isinstance(v, (int, float)) and v >= 8 and not k.startswith("not_") and "skipped" not in k and "unreadable" not in k}
+    hist = {k: int(v * 0.3) for k, v in (c.get("input_histogram") or {}).items()
+            if isinstance(v, (int, float)) and v >= 20 and not k.startswith("not_") and "skipped" not in k and "unreadable" not in k}
     out[p] = {"cases": int(c["evaluations"] * 0.5), "distinct_nontrivial": int(c["distinct_nontrivial"] * 0.5), "histogram": hist}
 json.dump(out, open(os.path.join(HERE, "floors.json"), "w"), indent=1, sort_keys=True)
 import corpus_files
